@@ -119,6 +119,10 @@ func genConcOp(t *sim.Tape) concOp {
 		}}
 	case 3: // font write
 		f := gen.GenFont(t, 8)
+		if t.Choose(8) == 0 {
+			// a glyph name the writer must refuse (not made of regular characters)
+			f.Glyphs[[]string{"a b", "x/y", "p(q", "", "t\tu"}[t.Choose(5)]] = gen.GenGlyph(t, false)
+		}
 		format := sim.Pick(t, gen.FontFormats)
 		var opt *type1.WriterOptions
 		switch t.Choose(4) {
@@ -195,20 +199,32 @@ func foreignFontOp(t *sim.Tape) concOp {
 	var file []byte
 	what := ""
 	switch t.Choose(3) {
-	case 0:
+	default:
 		file, _ = gen.BigSeacFont(t)
 		what = "large seac font"
 	case 1:
 		file, _ = gen.SeacFont(t)
 		what = "seac font"
-	default:
+	case 2:
 		var n int
 		file, n = gen.LenIVFont(t)
 		what = fmt.Sprintf("lenIV %d font", n)
 	}
+	reps := 1
+	if t.Choose(4) == 0 {
+		// a file that is rejected late, on a rarely taken error path, read many
+		// times: whatever such a failure leaves behind accumulates
+		file = gen.BadFontMatrixFont(t)
+		what = "font with a non-numeric FontMatrix entry, x40"
+		reps = 40
+	}
 	return concOp{"type1.Read(" + what + ")", func() string {
-		g, err := type1.Read(bytes.NewReader(file))
-		return dump.Err(err) + " " + dump.Font(g)
+		var r string
+		for i := 0; i < reps; i++ {
+			g, err := type1.Read(bytes.NewReader(file))
+			r = dump.Err(err) + " " + dump.Font(g)
+		}
+		return r
 	}}
 }
 
@@ -243,6 +259,20 @@ true { 1 } if false { 1 } { 2 } ifelse
 errordict /typecheck known 1 (a) add
 `)
 	sb.WriteString(dump.Err(err) + " " + dump.InterpNoDSC(in))
+	// resources other callers may have defined must not be visible here
+	for _, q := range []string{"/Test-H /CMap", "/Alpha /CMap", "/beta /CMap", "/Zeta-V /CMap", "/M0 /CMap", "/aaa /CMap", "/A /CMap", "/Evil /CMap", "/Odd /CMap", "/T /CMap", "/Probe /CMap",
+		"/Evil /ProcSet", "/R0 /Font", "/R1 /CIDFont", "/R2 /ProcSet", "/F0 /Font", "/Evil /Font", "/PF /Font", "/Identity-H /CMap"} {
+		ri := postscript.NewInterpreter()
+		ri.MaxOps = 1000
+		e := ri.ExecuteString(q + " findresource")
+		fmt.Fprintf(&sb, "\n%s findresource: %s stack=%d", q, dump.Err(e), len(ri.Stack))
+	}
+	for _, q := range []string{"/F0", "/F1", "/F2", "/Evil", "/PF"} {
+		ri := postscript.NewInterpreter()
+		ri.MaxOps = 1000
+		e := ri.ExecuteString(q + " findfont")
+		fmt.Fprintf(&sb, "\n%s findfont: %s", q, dump.Err(e))
+	}
 	// the budget error, as a fresh instance reports it
 	lim := postscript.NewInterpreter()
 	lim.MaxOps = 25
